@@ -102,9 +102,22 @@ class Session:
             def create_default_context(*a, **k):
                 return refms.TLSContext(sess.env)
 
+        class _Fallback:
+            """the shim answers for the factories the harness owns and defers to the real module for everything else (exception
+            classes, constants), so that library code naming them keeps working"""
+
+            def __init__(self, shim, real):
+                self._shim, self._real = shim, real
+
+            def __getattr__(self, name):
+                if name in vars(self._shim):
+                    v = vars(self._shim)[name]
+                    return v.__func__ if isinstance(v, staticmethod) else v
+                return getattr(self._real, name)
+
         self._saved = (ms.socket, ms.ssl)
-        ms.socket = SockMod
-        ms.ssl = SslMod
+        ms.socket = _Fallback(SockMod, _socket)
+        ms.ssl = _Fallback(SslMod, _ssl)
 
     def _restore(self):
         ms = self.ns.managesieve
